@@ -310,9 +310,9 @@ fn site_sig(entry: &str) -> (String, String) {
 fn scenarios(rng: &mut Rng, thorough: bool) -> Vec<Mix> {
     let mut v = vec![
         // every cheap statement kind with all kinds of references
-        Mix { n_creds: 2, n_claims: 5, disclosed: vec![vec!["city".into()], vec!["age".into()]], revocation: true, membership: true, equality: true, commitment: Some(2), range: None, verenc: Some((3, false)), ved: None, age: 40, shuffle: false, zero_ssn: false },
+        Mix { n_creds: 2, n_claims: 5, disclosed: vec![vec!["city".into()], vec!["age".into()]], revocation: true, membership: true, equality: true, commitment: Some(2), range: None, verenc: Some((3, false)), ved: None, age: 40, shuffle: false, zero_ssn: false, same_issuer: false },
         // the same kinds in a shuffled order (range before its commitment, predicates before signatures)
-        Mix { n_creds: 2, n_claims: 5, disclosed: vec![vec![], vec!["name".into()]], revocation: true, membership: false, equality: true, commitment: Some(2), range: Some((Some(0), None)), verenc: None, ved: Some(3), age: 40, shuffle: true, zero_ssn: false },
+        Mix { n_creds: 2, n_claims: 5, disclosed: vec![vec![], vec!["name".into()]], revocation: true, membership: false, equality: true, commitment: Some(2), range: Some((Some(0), None)), verenc: None, ved: Some(3), age: 40, shuffle: true, zero_ssn: false, same_issuer: false },
         Mix { n_creds: 1, n_claims: 4, disclosed: vec![vec!["name".into(), "age".into()]], commitment: Some(3), verenc: Some((3, true)), age: 20, shuffle: true, ..Default::default() },
     ];
     let extra = if thorough { 6 } else { 1 };
@@ -691,7 +691,7 @@ fn decoders_for<T: Serialize + DeserializeOwned>(em: &mut Emitter, rng: &mut Rng
 }
 
 fn decoders<S: ShortGroupSignatureScheme>(em: &mut Emitter, rng: &mut Rng, suite: &str) {
-    let mix = Mix { n_creds: 2, n_claims: 5, disclosed: vec![vec!["city".into()], vec!["age".into()]], revocation: true, membership: true, equality: true, commitment: Some(2), range: Some((Some(0), Some(200))), verenc: Some((3, true)), ved: None, age: 40, shuffle: false, zero_ssn: false };
+    let mix = Mix { n_creds: 2, n_claims: 5, disclosed: vec![vec!["city".into()], vec!["age".into()]], revocation: true, membership: true, equality: true, commitment: Some(2), range: Some((Some(0), Some(200))), verenc: Some((3, true)), ved: None, age: 40, shuffle: false, zero_ssn: false, same_issuer: false };
     let scn = Scn::<S>::build(rng, &mix);
     decoders_for::<PresentationSchema<S>>(em, rng, &format!("PresentationSchema<{}>", suite), &scn.schema);
     if let Out::Ok(p) = scn.create() {
